@@ -31,6 +31,22 @@ Aegis128LEncrypt(key, nonce, ad, m) ==
       tag == XorBytes(XorBytes(f[1], f[2]), XorBytes(f[3], f[4])) \o XorBytes(XorBytes(f[5], f[6]), XorBytes(f[7], f[8]))
   IN SubSeq(r[2], 1, Len(m)) \o tag
 
+\* Continuation from a given state, for associated data too long to absorb inside TLC: S is the state after the associated data
+\* (AbsorbAd128L for short data - used to validate the absorber that produced S), adlen8 the byte count as 8 little-endian bytes;
+\* the bit count goes through exact arithmetic (lib/BigNat.tla) - it does not fit TLC's integers.
+BNA == INSTANCE BigNat
+AbsorbAd128L(key, nonce, ad) ==
+  FoldLeft(LAMBDA S, b : Update128L(S, SubSeq(b, 1, 16), SubSeq(b, 17, 32)), Init128L(key, nonce), Blocks(ZeroPad(ad, 32), 32))
+Bits8(len8) == BNA!BNToBytes(BNA!BNMulSmall(BNA!BNFromBytes(len8), 8), 8)
+Aegis128LFromState(S, adlen8, m) ==
+  LET r == FoldLeft(LAMBDA st, b : LET t0 == SubSeq(b, 1, 16)  t1 == SubSeq(b, 17, 32)
+                                   IN <<Update128L(st[1], t0, t1), st[2] \o XorBytes(t0, Z0(st[1])) \o XorBytes(t1, Z1(st[1]))>>,
+                    <<S, <<>>>>, Blocks(ZeroPad(m, 32), 32))
+      t == XorBytes(r[1][3], Bits8(adlen8) \o LE64Bits(Len(m)))
+      f == FoldLeft(LAMBDA S2, i : Update128L(S2, t, t), r[1], [i \in 1..7 |-> i])
+      tag == XorBytes(XorBytes(f[1], f[2]), XorBytes(f[3], f[4])) \o XorBytes(XorBytes(f[5], f[6]), XorBytes(f[7], f[8]))
+  IN SubSeq(r[2], 1, Len(m)) \o tag
+
 \* ---------------------------------------------------------------- AEGIS-256
 Update256(S, m) ==
   <<AesRound(S[6], XorBytes(S[1], m)), AesRound(S[1], S[2]), AesRound(S[2], S[3]), AesRound(S[3], S[4]), AesRound(S[4], S[5]), AesRound(S[5], S[6])>>
@@ -45,6 +61,14 @@ Aegis256Encrypt(key, nonce, ad, m) ==
       r == FoldLeft(LAMBDA st, b : <<Update256(st[1], b), st[2] \o XorBytes(b, Z256(st[1]))>>, <<s1, <<>>>>, Blocks(ZeroPad(m, 16), 16))
       t == XorBytes(r[1][4], LE64Bits(Len(ad)) \o LE64Bits(Len(m)))
       f == FoldLeft(LAMBDA S, i : Update256(S, t), r[1], [i \in 1..7 |-> i])
+      tag == XorBytes(XorBytes(f[1], f[2]), f[3]) \o XorBytes(XorBytes(f[4], f[5]), f[6])
+  IN SubSeq(r[2], 1, Len(m)) \o tag
+\* continuation from the state after the associated data, as for AEGIS-128L above
+AbsorbAd256(key, nonce, ad) == FoldLeft(LAMBDA S, b : Update256(S, b), Init256(key, nonce), Blocks(ZeroPad(ad, 16), 16))
+Aegis256FromState(S, adlen8, m) ==
+  LET r == FoldLeft(LAMBDA st, b : <<Update256(st[1], b), st[2] \o XorBytes(b, Z256(st[1]))>>, <<S, <<>>>>, Blocks(ZeroPad(m, 16), 16))
+      t == XorBytes(r[1][4], Bits8(adlen8) \o LE64Bits(Len(m)))
+      f == FoldLeft(LAMBDA S2, i : Update256(S2, t), r[1], [i \in 1..7 |-> i])
       tag == XorBytes(XorBytes(f[1], f[2]), f[3]) \o XorBytes(XorBytes(f[4], f[5]), f[6])
   IN SubSeq(r[2], 1, Len(m)) \o tag
 =============================================================================
